@@ -154,15 +154,31 @@ class NodalAnalysis(object):
                         raise ValueError('Elt %s has too few nodes' % elt)
                     n1 = self.cg.node_map[elt.node_names[0]]
                     n2 = self.cg.node_map[elt.node_names[1]]
+                    reverse = False
                     if node == n1:
                         pass
                     elif node == n2:
                         n1, n2 = n2, n1
+                        reverse = True
                     else:
                         raise ValueError(
                             'Component %s does not have node %s' % (elt, node))
-                    result += elt.cpt.current_equation(
+                    # Current leaving the node through the component.
+                    i = elt.cpt.current_equation(
                         self._unknowns[n1] - self._unknowns[n2], self.kind)
+                    if reverse:
+                        # The applied voltage has been reversed but
+                        # the constant part of the branch relation
+                        # (source current, initial condition) keeps
+                        # the orientation of the component.
+                        i0 = elt.cpt.current_equation(0, self.kind)
+                        if i0 != 0:
+                            i = i - 2 * i0
+                    if elt.is_current_source:
+                        # A current source drives its current out
+                        # of its first node.
+                        i = -i
+                    result += i
                 lhs, rhs = result, expr(0)
 
             equations[node] = (lhs, rhs)
